@@ -375,11 +375,11 @@ func mtName(mt string) string {
 }
 
 func run(r *core.Run) int {
-	r.Rule = "every operation history up to length 4 (quick) / 5 (thorough) over {sign A, sign B, sign failing before the signer is invoked (no signing time), sign failing after it (signing time before the leaf's validity; remote variant: chain for another key), verify, content} " +
+	r.Rule = "every operation history up to length 4 (quick) / 6 (thorough) over {sign A, sign B, sign failing before the signer is invoked (no signing time), sign failing after it (signing time before the leaf's validity; remote variant: chain for another key), verify, content} " +
 		"(further late failures: remote signer whose chain or declared key spec does not fit, unreachable timestamp authority) from a new, a parsed-valid and a parsed-tampered object (COSE also: a parsed object whose one-certificate chain is a bare byte string, for which only repeatability and Verify-succeeds-implies-Content-succeeds are demanded), JWS and COSE, local and remote signer; the monitor tracks the set of reference states {None, Holds(X)} consistent with all outputs. non-trivial = the history has a Sign followed by a read; distinct by descriptor"
 	r.Assume("'no signature present' is recognised by the two not-found error types of the signature package")
 	fx = setup()
-	depth := r.Pick(4, 5)
+	depth := r.Pick(4, 6)
 	var cases []*Case
 	var gen func(prefix []int, d int)
 	gen = func(prefix []int, d int) {
